@@ -44,6 +44,16 @@ func runAC(c *Ctx, s *Sink) {
 		info := p.TypesInfo
 		n := 0
 		ast.Inspect(fd.Body, func(nd ast.Node) bool {
+			// `for i := range table` / `for i, v := range table` visits every entry by construction
+			if rs, ok := nd.(*ast.RangeStmt); ok {
+				if tv, ok := info.Types[rs.X]; ok {
+					if l, isArr := arrayLen(tv.Type); isArr {
+						n++
+						s.Pass(nil, fmt.Sprintf("%s:tableloop#%d", funcName(p, fd), n), rs.Pos(), fmt.Sprintf("range over %s covers all %d entries", types.ExprString(rs.X), l))
+					}
+				}
+				return true
+			}
 			f, ok := nd.(*ast.ForStmt)
 			if !ok || f.Cond == nil || f.Init == nil {
 				return true
